@@ -121,9 +121,26 @@ class Executor(Engine):
                         for p_ in old:
                             env3[p_] = old[p_]
                         pc2 = list(cur.pc)
-                        for lab, text in lems:
+                        for lem in lems:
+                            lab, text = lem[0], lem[1]
+                            opts = lem[2] if len(lem) > 2 else {}
                             g, a = self.spec_bool(text, env3, old=old, ghosts=c.ghost_vals)
-                            self.obl(f'{c.short}#at[{lab}]@{s.end_lineno}:s{i_}', pc2 + a, g, 'lemma', s.end_lineno)
+                            hyps = pc2 + a
+                            if opts.get('only_about'):
+                                # proof engineering only (DROPPING hypotheses is always sound): keep the closed formulas (axioms) and
+                                # the facts that mention one of the named locals
+                                keep = set()
+                                for nm in opts['only_about']:
+                                    v_ = env3.get(nm)
+                                    if v_ is not None:
+                                        keep |= _consts_of(v_.t)
+                                for _hop in range(opts.get('hops', 2) - 1):     # ... or a local-free constant of such a fact
+                                    for h in hyps:
+                                        ch = _consts_of(h)
+                                        if ch & keep and len(ch) <= 6:
+                                            keep = keep | ch
+                                hyps = [h for h in hyps if not _consts_of(h) or (_consts_of(h) & keep)]
+                            self.obl(f'{c.short}#at[{lab}]@{s.end_lineno}:s{i_}', hyps, g, 'lemma', s.end_lineno)
                             pc2 = pc2 + a + [g]
                         new_states.append(State(cur.env, pc2, cur.bag, cur.old))
                     states = new_states
